@@ -92,8 +92,11 @@ def gen_policy(r):
         p['preset'] = gen_section(r)
     if shape in ('groups', 'both'):
         gs = {}
+        empty_all = r.random() < 0.12
         for g in r.sample(['g1', 'g2', 'g3'], r.choice([1, 2])):
-            gs[g] = gen_section(r)
+            # a group section may be empty: it grants nothing, but the
+            # policy still "defines groups"
+            gs[g] = {} if empty_all or r.random() < 0.1 else gen_section(r)
         p['groups'] = gs
     return p
 
